@@ -84,7 +84,8 @@ PROPS = {
         modules=['Resonate.Properties.C03'],
         tie_filter=r'promise(Insert|Update|Select_)|taskInsert_|shape|wiring|uniques',
         harness=[sysdiff('sysdiff-retries', ['CreatePromise', 'CreatePromise', 'CreatePromiseAndTask', 'CompletePromise', 'CompletePromise', 'ReadPromise'],
-                         (30, 150), (800, 150), 'C01,C04,C07', ['-routed', '40', '-fail', '25', '-crash', '1', '-known', 'F5'], (250, 150)),
+                         (30, 150), (800, 150), 'C03,C01,C04,C07', ['-routed', '40', '-fail', '25', '-crash', '1', '-known', 'F5'], (250, 150)),
+                 sysdiff('sysdiff-retries-focus', ['CreatePromise', 'CreatePromiseAndTask', 'CompletePromise', 'ReadPromise'], (15, 60), (500, 80), 'C03,C01', ['-focus', '-fail', '15', '-known', 'F5'], (300, 80)),
                  with_monitor(storediff('storediff-promises', PROMISE_KINDS, (20, 30), (500, 40)), 'C01')],
         rule=SYS_RULE + '; requests on 4 promise ids with idempotency key absent / i0 / i1, strict on/off, all three completion states, timeouts around the clock; 25% of the submissions fail before or AFTER commit so that clients retry after lost responses and race the original; monitors: PromMono (no repeat changes a promise), task monotonicity (no second task), C04',
         assumptions=['completion requests carry a state in {resolved, rejected, canceled}'],
